@@ -478,6 +478,13 @@ def generate(src_dir):
         for n in d.own()
     )
     n_conn_bindings = len(d.bind.get("connection", []))
+    # the local the looked-up handler is bound to (`f = self.commands_mapping.get(cmd)`), whatever it is called
+    hvars = {
+        n.targets[0].id for n in d.own()
+        if isinstance(n, ast.Assign) and len(n.targets) == 1 and isinstance(n.targets[0], ast.Name)
+        and isinstance(n.value, ast.Call) and ast.unparse(n.value.func) in ("self.commands_mapping.get", "self.commands_mapping.__getitem__")
+    }
+    hvar = hvars.pop() if len(hvars) == 1 else "f"
     for n in d.own():
         if isinstance(n, ast.Assign) and len(n.targets) == 1:
             t = n.targets[0]
@@ -495,10 +502,10 @@ def generate(src_dir):
             if n.func.attr in ("greeting",):
                 if not (n.args and isinstance(n.args[0], ast.Name) and n.args[0].id == "connection"):
                     disp_calls_own = False
-        if isinstance(n, ast.Call) and isinstance(n.func, ast.Name) and n.func.id == "f":
+        if isinstance(n, ast.Call) and isinstance(n.func, ast.Name) and n.func.id == hvar:
             if not (len(n.args) == 2 and isinstance(n.args[0], ast.Name) and n.args[0].id == "connection"):
                 disp_calls_own = False
-    calls_f = [n for n in d.own() if isinstance(n, ast.Call) and isinstance(n.func, ast.Name) and n.func.id == "f"]
+    calls_f = [n for n in d.own() if isinstance(n, ast.Call) and isinstance(n.func, ast.Name) and n.func.id == hvar]
     if len(calls_f) != 1:
         raise Unclassified("dispatcher does not call the looked-up handler exactly once as f(connection, rest)")
 
